@@ -15,15 +15,15 @@ namespace AutoTrait
 open Gen.AutoTraitGraph
 
 /-- the derived (Send, Sync) verdict of every node of the extracted graph -/
-def sol : Assign := solve graph
+def sol : Assign := iter graph rounds
 
 /-- the iteration has reached a fixpoint of the derivation rules on the extracted graph … -/
 theorem C38_fixpoint : step graph sol = sol := by decide +kernel
 
 /-- … hence `sol` is *the* coinductive derivation: consistent with the rules and above every other
-consistent assignment (general lemma `solve_greatest`, monotonicity of the rules) -/
+consistent assignment (general lemma `iter_greatest`, monotonicity of the rules) -/
 theorem C38_sol_greatest : Consistent graph sol ∧ ∀ A, Consistent graph A → LE A sol :=
-  solve_greatest graph C38_fixpoint
+  iter_greatest graph rounds C38_fixpoint
 
 /-- **C38 (static).** Every component type of `EmmyLuaAnalysis` — the types hook H6 asserts with rustc:
 `LuaCompilation`, `LuaDiagnostic`, `DbIndex`, its 15 indexes, `Vfs`, the syntax tree, … — is
